@@ -5,12 +5,15 @@ from plasTeX.Packages import report
 def ProcessOptions(options, document): # type: ignore
     report.ProcessOptions(options, document)
     document.context['thesection'].format = '${section}'
-    document.context['theindex'].counter = 'section'
-    document.context['theindex'].level = Environment.SECTION_LEVEL
-    document.context['printindex'].counter = 'section'
-    document.context['printindex'].level = Command.SECTION_LEVEL
-    document.context['bibliography'].counter = 'section'
-    document.context['bibliography'].level = Command.SECTION_LEVEL
+    # Index and bibliography are section-level units in an article.  Use
+    # subclasses local to this document: the base classes are shared with
+    # every other document processed by this interpreter.
+    for name, level in [('theindex', Environment.SECTION_LEVEL),
+                        ('printindex', Command.SECTION_LEVEL),
+                        ('bibliography', Command.SECTION_LEVEL)]:
+        base = document.context[name]
+        document.context.addGlobal(name, type(base.__name__, (base,),
+            {'counter': 'section', 'level': level, '__module__': base.__module__}))
 
 class appendix(Command): # type: ignore
 
